@@ -22,9 +22,8 @@ TRUSTED = [
     "sha256 is treated as collision-free by the correspondence (the theorems assume nothing about the hash)",
 ]
 
-FX_REPAIRED = 7
+FX_REPAIRED = 3      # bit 0 = fix9, bit 1 = fix10
 F10 = "C10-10-empty-signature"
-F11 = "C10-11-nil-dereference"
 SURG10 = {EMPTYSIG, NULLSIG}
 SURG11 = {NILHEAD, NILDIG, NULLLINK, NULLSTAMP}
 TRACKABLE = {CALC, EDIT, SIGN, UNSIGN, STAMP, LINK, TAG, META, NOTES, VALIDATE, VERIFY, REPARSE, CODE, INSERT}
@@ -66,14 +65,12 @@ def judge(base, ops, steps):
     (clause, step index, finding id or None)."""
     bad = []
     t = Track(base)
-    seen10 = seen11 = False
+    seen10 = False
     prev_n = 0
     for i, (op, (out, n, real)) in enumerate(zip(ops, steps)):
         code = op[0]
         if code in SURG10 and out == "ok":
             seen10 = True
-        if code in SURG11 and out == "ok":
-            seen11 = True
         if code == NULLSIG and out == "ok":
             t.nullsig = True
         if code == NILHEAD and out == "ok":
@@ -82,22 +79,14 @@ def judge(base, ops, steps):
             t.known = False
         # ---- clauses that need no bookkeeping
         if out == "panic" and code in (VERIFY, VALIDATE, SIGN):
-            fid = None
-            if seen10 and code == VERIFY:
-                fid = F10
-            elif seen11:
-                fid = F11
-            elif seen10:
-                fid = F10
-            bad.append(("%s never panics" % NAMES[code], i, fid))
+            bad.append(("%s never panics" % NAMES[code], i, None))
         if code == SIGN and out not in ("ok", "panic") and n != 0 and not t.nilhead:
             bad.append(("a failed signing leaves the envelope unsigned", i, None))
         if code == SIGN and out == "ok":
             if n != prev_n + 1:
                 bad.append(("a successful Sign appends exactly one signature", i, None))
             if i + 1 < len(ops) and ops[i + 1][0] == VALIDATE and steps[i + 1][0] != "ok":
-                fid = F11 if (steps[i + 1][0] == "panic" and seen11) else None
-                bad.append(("an envelope that was just signed validates", i + 1, fid))
+                bad.append(("an envelope that was just signed validates", i + 1, None))
         if real != n and not t.nullsig:
             bad.append(("every entry in the signature list is a real signature", i, F10 if seen10 else None))
         if code == VALIDATE and out == "ok" and real != n:
@@ -223,22 +212,17 @@ def load_corpus(cid):
     return cases
 
 
-def classify(c, line, base, ops, g):
-    """The implementation differs from the repaired model on this history: is it one of the
-    recorded defects (the as-shipped variant of exactly that function reproduces the output and
-    the history contains the surgery that reaches it)?"""
+def classify(c, base, ops, g, alt):
+    """The implementation differs from the repaired model on this history: is it the recorded
+    defect (the as-shipped variant of exactly that function - fix10 switched off - reproduces the
+    output and the history contains the surgery that reaches it)?"""
     codes = {o[0] for o in ops}
-    for fx, fid, surg in ((5, F10, SURG10), (3, F11, SURG11), (1, None, None)):
-        l2 = c10_line(fx, base, ops)
-        if run_oracle([l2], shards=1)[0] == g:
-            if fid and codes & surg:
-                return fid
-            if fid is None and codes & SURG10 and codes & SURG11:
-                return F10 if c.known(F10) and c.known(F11) else None
+    if alt == g and codes & SURG10:
+        return F10
     return None
 
 
-def check_lines(c, stream, items, note_samples=True):
+def check_lines(c, stream, items, note_samples=True, count_distinct=True):
     """items: [(base, ops)].  Runs implementation and model, compares, judges."""
     if not items:
         return
@@ -246,14 +230,20 @@ def check_lines(c, stream, items, note_samples=True):
     go = run_go(lines, shards=16)
     mo = run_oracle(lines, shards=16)
     reported = 0
-    for (base, ops), l, g, m in zip(items, lines, go, mo):
+    # the as-shipped variant, in one batch, for the histories on which implementation and repaired model differ
+    diff = [i for i in range(len(lines)) if go[i] != mo[i]]
+    alt = {}
+    if diff:
+        outs = run_oracle([c10_line(FX_REPAIRED & ~2, *items[i]) for i in diff], shards=16)
+        alt = {i: outs[j] for j, i in enumerate(diff)}
+    for idx, ((base, ops), l, g, m) in enumerate(zip(items, lines, go, mo)):
         steps = parse_steps(g)
         if steps is None or len(steps) != len(ops):
             c.count(stream, 1)
             c.report("harness could not run the history: %s -> %s" % (l, g), {"case": l, "implementation": g}, no_input=True)
             continue
         nontrivial = any(s[0] != "skip" for s in steps)
-        c.count(stream, 1, (base, tuple(ops)) if nontrivial else None)
+        c.count(stream, 1, (base, tuple(ops)) if (nontrivial and count_distinct) else None)
         c.cov["steps"] = c.cov.get("steps", 0) + len(ops)
         viol = judge(base, ops, steps)
         for clause, i, fid in viol:
@@ -269,7 +259,7 @@ def check_lines(c, stream, items, note_samples=True):
         if g != m:
             msteps = parse_steps(m) or []
             i = next((j for j in range(min(len(steps), len(msteps))) if steps[j] != msteps[j]), 0)
-            fid = classify(c, l, base, ops, g)
+            fid = classify(c, base, ops, g, alt[idx])
             what = "implementation and model differ at step %d (%s): implementation %s, model %s; history [%s] on base document %d" % (
                 i + 1, show_op(ops[i]), steps[i], msteps[i] if i < len(msteps) else None, show(ops[:i + 1]), base)
             if fid is None and reported >= 30:
@@ -296,16 +286,23 @@ def run(c):
     corpus = load_corpus("C10")
     check_lines(c, "corpus", [(parse_case_line(l)[1], parse_case_line(l)[2]) for _, l in corpus])
     # 2. exhaustive enumeration; a history of length n contains all its prefixes
-    d0, d1 = (4, 3) if quick else (6, 4)
+    d0, d1 = (4, 3) if quick else (5, 4)
     for base, depth in ((0, d0), (1, d1), (2, d1), (3, d1), (-1, d1)):
-        if depth <= 4:
-            check_lines(c, "exhaustive", [(base, list(seq)) for seq in itertools.product(ALPHA16, repeat=depth)])
-        else:
-            for pre in itertools.product(ALPHA16, repeat=depth - 4):
-                check_lines(c, "exhaustive", [(base, list(pre + seq)) for seq in itertools.product(ALPHA16, repeat=4)],
-                            note_samples=(pre == (ALPHA16[2],) * (depth - 4)))
+        for pre in itertools.product(ALPHA16, repeat=max(0, depth - 4)):
+            check_lines(c, "exhaustive", [(base, list(pre + seq)) for seq in itertools.product(ALPHA16, repeat=min(4, depth))],
+                        note_samples=(pre in ((), (ALPHA16[2],))))
     c.cov["exhaustive_stream_complete"] = True
-    c.cov["exhaustive_scope"] = "all histories over the 16-operation alphabet: length <= %d on the valid-with-code document, <= %d on the valid-without-code, invalid, non-calculable documents and on the empty envelope" % (d0, d1)
+    c.cov["exhaustive_scope"] = ("all histories over the 16-operation alphabet: length <= %d on the valid-with-code document, <= %d on the "
+                                 "valid-without-code, invalid, non-calculable documents and on the empty envelope" % (d0, d1))
+    if not quick:
+        # length 6 on the main document: everything with VERIF_C10_FULL6=1 (16.7 M histories, about an hour on 16 cores),
+        # otherwise the sixteenth that starts with a seed-chosen operation
+        firsts = ALPHA16 if os.environ.get("VERIF_C10_FULL6") else [c.rng.choice(ALPHA16)]
+        for f in firsts:
+            for mid in ALPHA16:
+                check_lines(c, "length-6", [(0, [f, mid] + list(seq)) for seq in itertools.product(ALPHA16, repeat=4)], note_samples=False,
+                            count_distinct=not os.environ.get("VERIF_C10_FULL6"))   # 16.7 M keys would not fit: counted conservatively
+        c.cov["length_6_scope"] = "histories of length 6 on the valid-with-code document starting with: " + ", ".join(show_op(f) for f in firsts)
     # 3. random histories
     n = 6000 if quick else 120000
     items = [(c.rng.choice([0, 0, 1, 2, 3, -1]), rand_history(c.rng, api_only=(i % 3 == 0))) for i in range(n)]
